@@ -134,7 +134,10 @@ def classify_diag(d, unit, lines):
         return lm[ln - 1] if 0 < ln <= len(lm) else None
     po = org(prim)
     so = org(sec[0]) if sec else None
-    fn = enclosing_fn(lines, prim['line_start']) if prim and prim.get('file_name', '').endswith(os.path.basename(unit.out_path)) else '?'
+    ours = [s for s in ([prim] if prim else []) + [x for x in spans if x is not prim] if s.get('file_name', '').endswith(os.path.basename(unit.out_path))]
+    fn = enclosing_fn(lines, ours[0]['line_start']) if ours else '?'
+    if prim is not None and ours and not prim.get('file_name', '').endswith(os.path.basename(unit.out_path)):
+        prim = ours[0]; po = org(prim)
     def text_of(s):
         if s is None: return ''
         if s.get('text'):
